@@ -64,7 +64,14 @@ def make_workspace(rng, ncrates, force=None):
                 f["items"].insert(0, {"kind": "use", "tree": ("upath", ocn, ("uname", w))})
                 style[w] = "use"
             elif r < 0.55:
-                f["items"].insert(0, {"kind": "use", "tree": ("upath", ocn, ("ugroup", [("uname", w), ("upath", "sub", ("uname", "Unrelated"))]))})
+                # a brace list that mixes the type with leaves the collector rejects (a function, a module, `self`, an ignored name,
+                # a nested path), in any order: the type may come first, last or in the middle
+                extra = rng.sample([("uname", "describe"), ("uname", "self"), ("uname", "Option"), ("uname", "helper_mod"),
+                                    ("upath", "sub", ("uname", "Unrelated")), ("upath", "sub", ("ugroup", [("uname", "a_fn"), ("uname", "Deep")]))],
+                                   rng.randint(1, 3))
+                members = [("uname", w)] + extra
+                rng.shuffle(members)
+                f["items"].insert(0, {"kind": "use", "tree": ("upath", ocn, ("ugroup", members))})
                 style[w] = "use-group"
             elif r < 0.65:
                 f["items"].insert(0, {"kind": "use", "tree": ("upath", ocn, ("uglob",))})
